@@ -32,8 +32,11 @@ LEVEL = ('decides: infeasibility is declared only for a conflict at decision lev
          '(rule ids …K<n>): the kernel rules every verdict depends on — predicate algebra, nogood '
          'watchers, minimisers, conflict-analysis tables, nogood deletion, decision read-back, no-'
          'learning resolver, constraint builders, reified reasons — wherever they are not already '
-         'registered here under another id. Does not decide soundness of propagation, explanations or '
-         'minimisation, nor completeness/termination of search')
+         'registered here under another id. The semantic minimiser starts every call with empty '
+         'scratch vectors (U28); add_clause stores exactly the negation of what it was given (U29); '
+         'every Option<bool> evaluator of a predicate, discovered by signature, is sound on all '
+         'domains of a 5-value universe (U30). Does not decide soundness of propagation, explanations '
+         'or minimisation, nor completeness/termination of search')
 TECHNIQUE = "static analysis: dominance, who-may-construct, symbolic table recovery, typestate over rustc MIR"
 
 
